@@ -351,6 +351,10 @@ struct MatchCase {
     arms: Vec<Arm>,
     mode: Mode,
     origin: &'static str,
+    /// where the match's value goes: 0 = first assignment of `r` (fresh register), 1 = `r` already
+    /// holds a value, 2 = last call argument after other arguments, 3 = tuple element after another
+    /// element; None = chosen from a hash of the arms
+    rctx: Option<u8>,
 }
 
 const SUBJ_NAMES: [&str; 3] = ["s", "t", "u"];
@@ -358,7 +362,7 @@ const SUBJ_NAMES: [&str; 3] = ["s", "t", "u"];
 impl MatchCase {
     fn script(&self) -> String {
         let mut s = String::new();
-        s.push_str("id2 = |tr, x|\n  tr.push 'S'\n  x\ng = |tr, i, c|\n  tr.push i\n  c\n");
+        s.push_str("id2 = |tr, x|\n  tr.push 'S'\n  x\ng = |tr, i, c|\n  tr.push i\n  c\nid3 = |a, b, c| (a, b, c)\n");
         let params: Vec<&str> = match self.mode {
             Mode::Multi(k) => SUBJ_NAMES[..k].to_vec(),
             _ => vec!["s"],
@@ -377,7 +381,15 @@ impl MatchCase {
                 ps.join(", ")
             }
         };
-        s.push_str(&format!("  r = match {}\n", subj));
+        // the value of the match lands in a fresh register, an existing variable, a call
+        // argument or a tuple element (a stale result register must not show through)
+        let rctx = self.result_ctx();
+        match rctx {
+            0 => s.push_str(&format!("  r = match {}\n", subj)),
+            1 => s.push_str(&format!("  r = 'R'\n  r = match {}\n", subj)),
+            2 => s.push_str(&format!("  r = 'R'\n  r = id3 'A', 'B', match {}\n", subj)),
+            _ => s.push_str(&format!("  r = 'R'\n  r = 'T', match {}\n", subj)),
+        }
         for (i, arm) in self.arms.iter().enumerate() {
             let body = {
                 let mut parts = vec![i.to_string()];
@@ -395,6 +407,11 @@ impl MatchCase {
                 };
                 s.push_str(&format!("    {}{} then {}\n", alts.join(" or "), guard, body));
             }
+        }
+        match rctx {
+            2 => s.push_str("  r = r[2]\n"),
+            3 => s.push_str("  r = r[1]\n"),
+            _ => {}
         }
         s.push_str(&format!("  (r, tr, {}, {})\n", VARS.join(", "), params.join(", ")));
         s.push_str(&format!(
@@ -433,6 +450,12 @@ impl MatchCase {
         format!("arms {} {} {}", VARS.len(), mode, arms.join(" "))
     }
     /// the shape of F-C03-2: the subject is a bare local and a pattern binds its name
+    fn result_ctx(&self) -> u8 {
+        match self.rctx {
+            Some(c) => c,
+            None => (kvh::fnv1a(self.request().as_bytes()) % 4) as u8,
+        }
+    }
     fn binds_subject(&self) -> bool {
         self.mode == Mode::Var && self.arms.iter().any(|a| a.vars().contains(&SUBJ_VAR))
     }
@@ -593,6 +616,10 @@ impl Ctx {
         };
         self.rep.bump(&format!("origin={}", mc.origin));
         self.rep.bump(&format!("arms={}", mc.arms.len()));
+        self.rep.bump(&format!("result_position={}", ["fresh", "existing-variable", "call-argument", "tuple-element"][mc.result_ctx() as usize]));
+        if mc.arms.last().is_some_and(|a| a.guard.is_some()) {
+            self.rep.bump("sets_with_guarded_last_arm");
+        }
         self.rep.bump(&format!("mode={:?}", mc.mode).replace("(", "").replace(")", ""));
         let maxalts = mc.arms.iter().map(|a| a.alts.len()).max().unwrap_or(0);
         self.rep.bump(&format!("max_alts={}", maxalts));
@@ -999,7 +1026,7 @@ fn systematic_cases(max_elems: usize) -> Vec<MatchCase> {
                 out.push(MatchCase {
                     arms: vec![Arm { alts, guard: None }, fallback.clone()],
                     mode: Mode::Expr,
-                    origin: "systematic",
+                    origin: "systematic", rctx: None,
                 });
             }
         }
@@ -1051,7 +1078,7 @@ fn same_name_cases() -> Vec<MatchCase> {
     for (alts, guard) in singles.drain(..) {
         for mode in [Mode::Var, Mode::Expr] {
             // as the first arm, and after an arm that fails having written the subject's name
-            out.push(MatchCase { arms: vec![Arm { alts: alts.clone(), guard: guard.clone() }, fallback.clone()], mode, origin: "same-name" });
+            out.push(MatchCase { arms: vec![Arm { alts: alts.clone(), guard: guard.clone() }, fallback.clone()], mode, origin: "same-name", rctx: None });
             out.push(MatchCase {
                 arms: vec![
                     Arm { alts: vec![vec![seq(vec![id(s), P::Lit(V::S("never".into()))])]], guard: None },
@@ -1059,7 +1086,7 @@ fn same_name_cases() -> Vec<MatchCase> {
                     fallback.clone(),
                 ],
                 mode,
-                origin: "same-name",
+                origin: "same-name", rctx: None,
             });
         }
     }
@@ -1074,7 +1101,59 @@ fn same_name_cases() -> Vec<MatchCase> {
         (vec![vec![id(s), id(s)]], None),
     ];
     for (alts, guard) in multis {
-        out.push(MatchCase { arms: vec![Arm { alts, guard }, Arm { alts: vec![vec![P::Wild(None)]], guard: None }], mode: Mode::Multi(2), origin: "same-name" });
+        out.push(MatchCase { arms: vec![Arm { alts, guard }, Arm { alts: vec![vec![P::Wild(None)]], guard: None }], mode: Mode::Multi(2), origin: "same-name", rctx: None });
+    }
+    out
+}
+
+/// "a guarded wildcard is not an else": the last arm is `_ if g` / `x if g` (typed or not, also a
+/// parenthesised pattern) whose guard is false, after 0..2 arms that may or may not match, with the
+/// match's value going to every kind of result position — no arm runs ⇒ null, never a stale value
+fn guarded_last_cases() -> Vec<MatchCase> {
+    let f = || Some(G::Const(false));
+    let lasts: Vec<(Alt, Option<G>)> = vec![
+        (vec![P::Wild(None)], f()),
+        (vec![P::Wild(None)], Some(G::Eq(4, V::S("never".into())))),
+        (vec![P::Wild(Some(Ty("Any", false)))], f()),
+        (vec![P::Wild(Some(Ty("Number", true)))], f()),
+        (vec![P::Id(4, None)], f()),
+        (vec![P::Id(4, None)], Some(G::Eq(4, V::S("never".into())))),
+        (vec![P::Id(4, Some(Ty("Any", false)))], f()),
+        (vec![P::Seq(vec![], Rest::Anon, vec![])], f()),
+        (vec![P::Wild(None)], Some(G::Const(true))),
+        (vec![P::Wild(None)], None),
+    ];
+    let befores: Vec<Vec<Arm>> = vec![
+        vec![],
+        vec![Arm { alts: vec![vec![P::Lit(V::I(0))]], guard: None }],
+        vec![
+            Arm { alts: vec![vec![P::Seq(vec![P::Id(0, None), P::Lit(V::I(1))], Rest::None, vec![])]], guard: None },
+            Arm { alts: vec![vec![P::Wild(None)]], guard: Some(G::Const(false)) },
+        ],
+    ];
+    let mut out = vec![];
+    for (alt, guard) in &lasts {
+        for before in &befores {
+            for rctx in 0..4u8 {
+                for mode in [Mode::Expr, Mode::Var] {
+                    let mut arms = before.clone();
+                    arms.push(Arm { alts: vec![alt.clone()], guard: guard.clone() });
+                    out.push(MatchCase { arms, mode, origin: "guarded-last", rctx: Some(rctx) });
+                }
+            }
+        }
+    }
+    // multi-value: `_ if false` as the last arm of `match s, t`
+    for rctx in 0..4u8 {
+        out.push(MatchCase {
+            arms: vec![
+                Arm { alts: vec![vec![P::Lit(V::I(0)), P::Wild(None)]], guard: None },
+                Arm { alts: vec![vec![P::Wild(None)]], guard: Some(G::Const(false)) },
+            ],
+            mode: Mode::Multi(2),
+            origin: "guarded-last",
+            rctx: Some(rctx),
+        });
     }
     out
 }
@@ -1273,7 +1352,7 @@ impl<'a> Gen<'a> {
             let guard = self.guard(&readable);
             arms.push(Arm { alts, guard });
         }
-        MatchCase { arms, mode, origin: if self.allow_quirks { "random+quirks" } else { "random" } }
+        MatchCase { arms, mode, origin: if self.allow_quirks { "random+quirks" } else { "random" }, rctx: None }
     }
 }
 
@@ -1737,6 +1816,16 @@ fn main() {
         }
     }
     cx.rep.extra.insert("same_name_sets".into(), json!(sn.len()));
+
+    // --- 2c. guarded last arms × result positions
+    let gl = guarded_last_cases();
+    for mc in &gl {
+        match mc.mode {
+            Mode::Multi(_) => cx.run_match_case(mc, &multi_pool_sn),
+            _ => cx.run_match_case(mc, &small_subjects),
+        }
+    }
+    cx.rep.extra.insert("guarded_last_sets".into(), json!(gl.len()));
 
     // --- 3. random pattern sets
     let n_random = if thorough { 3000 } else { 700 };
